@@ -50,7 +50,7 @@ def run(tier):
                 if r_.random() < 0.5:
                     a["repl"] = T("--new-arg")
             a["printdef"] = "dflt"
-            if a["kind"] in ("int", "str") and r_.random() < 0.3:
+            if a["kind"] in ("int", "str", "dbl") and r_.random() < 0.3:
                 a["printdef"] = r_.choice(["yes", "no"])
             a["desc"] = T("D%d %s" % (k + 1, " ".join(r_.choice(WORDS) for _ in range(r_.choice([0, 1, 3, 10, 40])))))
         # deprecated arguments cannot be required/excluded partners in a sensible set-up, keep constraints
